@@ -113,6 +113,7 @@ pub fn run(rep: &'static Report) {
     }
     cli_level(rep);
     short_count_sinks(rep);
+    zero_tailed_files(rep);
     rep.extra("production_file_edits", json!({"file_len":file.len(),"bit_flips":bytes.len()*8,"truncations":truncs.len(),"complete": rep.tier == Tier::Thorough}));
     // unique graph states are distinct byte strings by construction; minted words likewise
     rep.add_distinct(rep.states.load(Ordering::Relaxed));
@@ -175,6 +176,54 @@ fn short_count_sinks(rep: &Report) {
     });
     rep.eval(execs.load(Ordering::Relaxed));
     rep.extra("short_count_sink_executions", json!(execs.load(Ordering::Relaxed)));
+}
+
+/// Data-dependent prefixes: authentic files whose final bytes are 0x00 (1 in 256 files end in one zero byte, 1 in 65536
+/// in two). A reader that pads a short read with stale zero buffer contents would accept such a file with its tail cut
+/// off. The corpus is found by varying the plaintext until REF's file ends in the wanted bytes; every proper prefix of
+/// each file must be rejected.
+fn zero_tailed_files(rep: &Report) {
+    let seed = rep.seed;
+    let key = derive32(seed, "c03-zt-key");
+    let ids = idents(seed);
+    let mut found: Vec<(String, Subject, Vec<u8>)> = vec![];
+    // tiny scope: one chunk and two chunks, tails 00 and 00 00
+    for (nch, tail) in [(1usize, 1usize), (2, 1), (1, 2)] {
+        let cs = 4u32;
+        let l = if nch == 1 { 3 } else { 6 };
+        for k in 0..2_000_000u64 {
+            let p = derive(seed ^ (k << 8), "c03-zt-plain", l);
+            let ch: Vec<usize> = if nch == 1 { vec![l] } else { vec![4, 2] };
+            let f = r::write_chunks(&key, &[], &p, &ch);
+            if f[f.len() - tail..].iter().all(|&b| b == 0) {
+                found.push((format!("tiny {} chunk(s), last {} byte(s) zero", nch, tail), Subject::TinyDec { key: hx(&key), aad: String::new(), cs }, f));
+                break;
+            }
+        }
+    }
+    // production scope, key mode: vary the payload key
+    for k in 0..100_000u64 {
+        let p = plaintext(seed ^ 0x3b, 33);
+        let f = r::write_key_file(&ids[0].sk, &ids[2].pk, &derive32(seed, "c03-zt-e"), &derive32(seed ^ k, "c03-zt-pay"), &p, &[33]).unwrap();
+        if f[f.len() - 1] == 0 {
+            found.push(("key-mode file ending in a zero byte".into(), Subject::KeyDec { r: hx(&ids[2].sk), r_pub: hx(&ids[2].pk) }, f));
+            break;
+        }
+    }
+    if found.len() < 4 {
+        crate::report::machinery("zero-tailed corpus search did not find its files");
+    }
+    for (descr, sub, f) in &found {
+        (0..f.len()).into_par_iter().for_each(|cut| {
+            rep.eval(1);
+            let (res, out) = run_plain(sub, &f[..cut]);
+            if !matches!(res, Res::Err(..)) {
+                rep.violation("zero-tail/prefix-accepted", json!({"kind":"prod2","descr":descr,"cut":cut}), format!("{}: the proper prefix of {} of {} bytes was not rejected: {} ({} bytes out)", descr, cut, f.len(), res.brief(), out.len()));
+            }
+        });
+        rep.nontrivial(descr.as_bytes());
+    }
+    rep.extra("zero_tailed_files", json!(found.len()));
 }
 
 /// `kestrel decrypt` / `password decrypt` on authentic and edited files, to fresh and to pre-existing output paths and to stdout:
